@@ -168,10 +168,17 @@ def main():
         if not cand:
             continue
         i, j = rng.choice(cand)
-        t = dict(lines[i][j])
-        t["v"] = t["v"] + "Q"
-        t["s"] = t["s"] + [81]
-        lines[i][j] = t
+        # every occurrence gets a name no source variable can map to (three or more characters before the suffix)
+        old = lines[i][j]["v"]
+        for a, l in enumerate(lines):
+            for b, t in enumerate(l):
+                if t["k"] == "id" and t["v"] == old:
+                    t2 = dict(t)
+                    dollar = t2["v"].endswith("$")
+                    base = t2["v"][:-1] if dollar else t2["v"]
+                    t2["v"] = base + "QQ" + ("$" if dollar else "")
+                    t2["s"] = list((base + "QQ" + ("$" if dollar else "")).encode())
+                    lines[a][b] = t2
         picked.append({"id": len(picked) + 1, "vars": c["vars"], "out": lines})
         if len(picked) >= 40:
             break
